@@ -706,10 +706,11 @@ NeedsDen(ev) == ev.act \in {"from_roots", "apply_along_axis", "logical", "numdiv
 BigExponent == 55000
 Own(ev, reg, opts, ctx) ==
   CASE ev.act = "new" -> "ok"
-    [] ev.prop = "C20" /\ ev.out = "raise" /\ ev.bigexp >= BigExponent -> "ok"
+    \* (events of the large-exponent driver carry `bigexp`, whichever property owns them: C15 re-runs them under options)
+    [] "bigexp" \in DOMAIN ev /\ ev.out = "raise" /\ ev.bigexp >= BigExponent -> "ok"
     \* text files: C20 allows an error whenever an exponent cannot be written to or read from the file
     \* (e.g. exponent 74 is stored as U+0085, which the header pattern treats as white space)
-    [] ev.prop = "C20" /\ ev.act = "saveload" /\ ev.out = "raise" -> "ok"
+    [] "bigexp" \in DOMAIN ev /\ ev.act = "saveload" /\ ev.out = "raise" -> "ok"
     [] \E i \in 1..Len(ev.args) : ev.args[i] \notin 1..Len(reg) -> "machinery_operand"
     [] (NeedsDen(ev) \/ (ev.act = "dtype" /\ ev.fn \in {"construct", "arith"})) /\ \E i \in 1..Len(ev.args) : reg[ev.args[i]].d = <<>> -> "machinery_operand"
     [] ev.act = "arith" -> JArith(ev, reg)
